@@ -35,6 +35,11 @@ type Channel struct {
 
 	join   chan joinCtx
 	depart chan struct{}
+
+	// joined is set when the room's self-presence completes a join and cleared
+	// when the occupant's unavailable presence is handled.
+	// It is guarded by client.managedM.
+	joined bool
 }
 
 // Addr returns the address of the channel.
@@ -51,8 +56,10 @@ func (c *Channel) Me() jid.JID {
 func (c *Channel) Joined() bool {
 	c.client.managedM.Lock()
 	defer c.client.managedM.Unlock()
-	_, ok := c.client.managed[c.addr.Bare().String()]
-	return ok
+	// The table is keyed by the occupant address, and an entry exists from the
+	// moment a join is requested: being joined also takes a completed join.
+	managed, ok := c.client.managed[c.addr.String()]
+	return ok && managed == c && c.joined
 }
 
 // Leave exits the MUC, causing Joined to begin to return false.
@@ -123,6 +130,11 @@ func (c *Channel) LeavePresence(ctx context.Context, status string, p stanza.Pre
 	verifhook.Yield("muc.leave.wait", c.addr.String())
 	select {
 	case err := <-errChan:
+		// Leave makes Joined report false, also when the room refuses the
+		// request (it then does not regard us as an occupant that can leave).
+		c.client.managedM.Lock()
+		c.joined = false
+		c.client.managedM.Unlock()
 		return err
 	case <-c.depart:
 	case <-ctx.Done():
